@@ -70,3 +70,7 @@ Definition enum_scope_of (vals : list (string * Z * option string)) : scope :=
   | Some vs => EnumScope (infer vs (mk_eattrs None None))
   | None => EnumScope (mk_edecl [] false 64)
   end.
+
+(* ---- include guard of a module path (code points in, code points out) ---- *)
+Definition run_guard (l : list N) : list N := codes_of_string (header_guard (string_of_codes l)).
+Definition run_guard_eqb : list N -> list N -> bool := list_eqb N.eqb.
